@@ -23,6 +23,7 @@
 Require Import PV.Base.Prelude PV.Base.F64.
 Require Import PV.Model.Proto PV.Model.Desc PV.Model.Value PV.Model.Hist PV.Model.Vec PV.Model.Registry PV.Model.World.
 Require Import PV.Proofs.F64Facts PV.Proofs.HistFacts PV.Proofs.LocalFacts PV.Proofs.C12More PV.Proofs.C18Float PV.Proofs.C18More.
+Require Import PV.Spec.SpecC12 PV.Spec.SpecC18 PV.Proofs.C12Spec PV.Proofs.C18Spec.
 Open Scope N_scope.
 
 (* ---- exactly once, for every history ---------------------------------------------------------------- *)
@@ -140,6 +141,20 @@ Theorem c18_closure_local w s c l secs nanos :
   step w (OpClosure s secs nanos) = (put_slot w s (HLocalHist c (lh_observe (bounds_of w c) l (as_secs_f64 secs nanos))), OUnit).
 Proof. exact (closure_local w s c l secs nanos). Qed.
 
+
+(* ---- the property as written from the text holds of the model ------------------------------------- *)
+(* [spec_c18] (Spec/SpecC18.v) is the executable statement of C18 written from the property text (one
+   observation of the elapsed seconds per timer ended by record / observe / drop, to the SHARED
+   histogram also for a local timer, nothing for a discarded one, one per closure; returned seconds
+   equal to the elapsed input and not negative; the closure's result handed back).  It accepts the
+   model's own observations for every history in the domain of Proofs/C12Spec.v, which contains
+   everything the C18 generator emits (all timer operations in all modes on shared histograms - plain
+   or children of a histogram vector - and on local histograms, interleaved with observe / flush /
+   clear / clone / drop / reads / collections; fewer than 2^63 observations; label tuples that do
+   not collide under the label hash). *)
+Theorem c18_spec_model ops : ops_in_domain ops = true -> spec_c18 ops (run world0 ops) = true.
+Proof. exact (C18Spec.c18_spec_model ops). Qed.
+
 (* ---- non-vacuity --------------------------------------------------------------------------------------- *)
 Set Warnings "-inexact-float".
 Definition ex_o : Opts := mkOpts [] [] [99] [104] [] [].
@@ -176,6 +191,10 @@ Proof. cbv zeta. split; [apply c18_reachable|]. split; [apply c18_reachable|]. v
 Example c18_ex_elapsed : as_secs_f64 1 500000000 = 1.5%float /\ as_secs_f64 0 0 = 0%float /\ as_secs_f64 18446744073709551615 999999999 = 0x1p64%float.
 Proof. vm_compute. repeat split; reflexivity. Qed.
 
+(* the corpus scenario above is inside the domain *)
+Example c18_ex_domain : ops_in_domain ex_ops = true.
+Proof. vm_compute. reflexivity. Qed.
+
 Check c18_exactly_once : forall w ops c h,
   wok w -> timers_clear w -> nth_error (w_h w) c = Some h ->
   exists h', nth_error (w_h (run_world w ops)) c = Some h'
@@ -204,6 +223,9 @@ Check c18_closure_shared : forall w s c secs nanos,
   slot w s = HHist c ->
   step w (OpClosure s secs nanos) = (set_h w (upd (w_h w) c (fun h => hc_observe h (as_secs_f64 secs nanos))), OUnit).
 
+Check c18_spec_model : forall ops, ops_in_domain ops = true -> spec_c18 ops (run world0 ops) = true.
+
+Print Assumptions c18_spec_model.
 Print Assumptions c18_exactly_once.
 Print Assumptions c18_reachable.
 Print Assumptions c18_nonneg.
